@@ -186,7 +186,9 @@ def build_type(spec, reg, meta=None):
         key = ('enum', spec['id'])
         if key not in reg.by_id:
             members = [(m, enum_value(v)) for m, v in spec['members']]
-            if spec['mix'] == 'int':
+            if spec.get('flag'):
+                cls = enum.Flag(spec['name'], members)
+            elif spec['mix'] == 'int':
                 cls = enum.IntEnum(spec['name'], members)
             elif spec['mix'] == 'str':
                 cls = enum.Enum(spec['name'], members, type=str)
@@ -197,20 +199,40 @@ def build_type(spec, reg, meta=None):
             reg.let('e%d' % spec['id'], 'mkE %d %s %s' % (spec['id'], cstr(spec['name']),
                                                           {'plain': 'EPlain', 'int': 'EIntMix', 'str': 'EStrMix'}[spec['mix']]))
         return reg.by_id[key]
+    builtin = spec.get('spell') == 'builtin'
     if t == 'seq':
         e = build_type(spec['e'], reg)
+        if builtin:
+            return {'list': list, 'set': set, 'frozenset': frozenset, 'deque': collections.deque}[spec['k']][e]
         return {'list': T.List, 'set': T.Set, 'frozenset': T.FrozenSet, 'deque': T.Deque}[spec['k']][e]
     if t == 'tuple':
-        return T.Tuple[tuple(build_type(e, reg) for e in spec['es'])]
+        return (tuple if builtin else T.Tuple)[tuple(build_type(e, reg) for e in spec['es'])]
     if t == 'vartuple':
-        return T.Tuple[build_type(spec['e'], reg), ...]
+        return (tuple if builtin else T.Tuple)[build_type(spec['e'], reg), ...]
     if t == 'dict':
         kt, vt = build_type(spec['kt'], reg), build_type(spec['vt'], reg)
+        if builtin:
+            return {'dict': dict, 'defaultdict': collections.defaultdict, 'ordered': collections.OrderedDict}[spec['k']][kt, vt]
         return {'dict': T.Dict, 'defaultdict': T.DefaultDict, 'ordered': T.OrderedDict}[spec['k']][kt, vt]
     if t == 'opt':
-        return T.Optional[build_type(spec['e'], reg)]
+        e = build_type(spec['e'], reg)
+        if spec.get('spell') == 'pep604':
+            try:
+                return e | None
+            except TypeError:
+                pass
+        if spec.get('spell') == 'union':
+            return T.Union[e, None]
+        return T.Optional[e]
     if t == 'union':
-        return T.Union[tuple(type(None) if e['t'] == 'none' else build_type(e, reg) for e in spec['es'])]
+        ms = tuple(type(None) if e['t'] == 'none' else build_type(e, reg) for e in spec['es'])
+        if spec.get('spell') == 'pep604':
+            try:
+                import functools, operator
+                return functools.reduce(operator.or_, ms)
+            except TypeError:
+                pass
+        return T.Union[ms]
     if t == 'lit':
         return T.Literal[tuple(build_value(v, reg) for v in spec['vs'])]
     if t == 'nt':
@@ -249,12 +271,17 @@ def build_type(spec, reg, meta=None):
             ns = {'dataclass': dataclasses.dataclass, 'field': dataclasses.field, 'json_field': json_field,
                   'copy': copy, 'BASES': tuple(spec.get('bases_objs', ()))}
             bases = []
+            if spec.get('base') is not None:
+                ns['BaseCls'] = build_type(spec['base'], reg)
+                bases.append('BaseCls')
             for b in spec.get('bases', []):
                 import dataclass_wizard
                 ns[b] = getattr(dataclass_wizard, b)
                 bases.append(b)
             lines = ['@dataclass', 'class %s%s:' % (spec['name'], '(%s)' % ', '.join(bases) if bases else '')]
             for i, fd in enumerate(spec['fields']):
+                if fd.get('inherited'):
+                    continue
                 ns['T%d' % i] = build_type(fd['ty'], reg)
                 args = []
                 if fd.get('default') is not None:
@@ -273,7 +300,7 @@ def build_type(spec, reg, meta=None):
                     lines.append('    %s: T%d = field(%s)' % (fd['name'], i, ', '.join(args)))
                 else:
                     lines.append('    %s: T%d' % (fd['name'], i))
-            if not spec['fields']:
+            if not [fd for fd in spec['fields'] if not fd.get('inherited')]:
                 lines.append('    pass')
             exec('\n'.join(lines), ns)
             cls = ns[spec['name']]
@@ -677,10 +704,17 @@ def conforms(o, spec, reg, path='$', lax=None):
         return None if o is None else rec(o, spec['e'], path)
     if t == 'union':
         for e in spec['es']:
+            if e['t'] == 'none':            # a None MEMBER of a Union admits None only (the leniency F46 is about `None` on its own)
+                if o is None:
+                    return None
+                continue
             trial = ({'@v1'} if '@v1' in lax else set()) if lax is not None else None
             if conforms(o, e, reg, path, trial) is None:
                 if trial: lax.update(trial)
                 return None
+        if lax is not None and '@v1' not in lax and len(spec['es']) == 2 and spec['es'][0]['t'] == 'none':
+            # F55 (default engine): Union[None, X] wraps the parser of its first argument (NoneType): anything passes
+            lax.add('F55-v0-union-none-first'); return None
         return bad('in no Union member')
     if t == 'lit':
         for v in spec['vs']:
